@@ -7,6 +7,29 @@ func (w *seqWorld) resolveKey(k string, v int64) string {
 	if !strings.HasPrefix(k, "@") {
 		return k
 	}
+	// the right-edge tiles of the tree currently committed in the lock store: what a load reads and verifies
+	if h := w.orc.head(); h != nil && h.ck != nil && h.ck.N > 0 {
+		n := h.ck.N
+		edge := func(kind string, m int64) string {
+			if m%256 == 0 {
+				return sqTilePath(kind, m/256-1, 256)
+			}
+			return sqTilePath(kind, m/256, int(m%256))
+		}
+		switch k {
+		case "@edgedata":
+			return edge("data", n)
+		case "@edgenames":
+			return edge("names", n)
+		case "@edgehash0":
+			return edge("0", n)
+		case "@edgehash1":
+			if n >= 256 {
+				return edge("1", n/256)
+			}
+			return edge("0", n)
+		}
+	}
 	ks := w.keysSorted()
 	var cand []string
 	for _, x := range ks {
@@ -76,6 +99,14 @@ func (w *seqWorld) tamper(c0 *seqCmd) {
 		if src, ok2 := w.objects[c.Name]; ok2 {
 			w.objects[c.Key] = &storedObj{data: append([]byte(nil), src.data...), opts: src.opts}
 			applied = "copyfrom"
+		}
+	}
+	if applied != "" {
+		// whoever can rewrite an object is not bound by the store's immutability guard either: a tampered object is
+		// an ordinary one (a later upload of the right bytes replaces it, as on a backend that does not enforce the
+		// guard; the model's `tamper` step says the same)
+		if o2, ok2 := w.objects[c.Key]; ok2 {
+			o2.opts.Immutable = false
 		}
 	}
 	w.mu.Unlock()
